@@ -322,6 +322,24 @@ func (g *G) line(withCond bool) *ast.Line {
 			" [ordinal value=3 one=%st two=%nd few=%rd other=%th]x[/ordinal] o", " [nomarkup]é [x][/] w")
 	}
 	ln.Els = append(ln.Els, ast.El{Text: t})
+	if r.Intn(14) == 0 {
+		// a line that is nothing but one inline expression: its value is the whole text, and it is text like any other
+		// (stripped, markup resolved, a speaker prefix recognised)
+		var e *ast.Expr
+		switch r.Intn(4) {
+		case 0:
+			e = ast.Var("s")
+		case 1:
+			e = ast.Str(r.Pick("Guide: [b]welcome[/b] aboard", "[a]x[/a]", " padded ", "plain", "N: hi"))
+		default:
+			e = g.expr(1, "")
+		}
+		ln.Els = []ast.El{{E: e}}
+		if withCond && r.Intn(3) == 0 {
+			ln.Cond = g.expr(1, "bool")
+		}
+		return ln
+	}
 	for k := r.Intn(3); k > 0; k-- {
 		ln.Els[len(ln.Els)-1].Text += " "
 		if r.Intn(10) == 0 {
